@@ -115,7 +115,7 @@ func BuildProbe(probe string, v Variant) (string, error) {
 	if err != nil {
 		return "", err
 	}
-	name := probe + "_" + v.Name
+	name := GenName(probe + "_" + v.Name)
 	dir := filepath.Join(Harness(), "gen", name)
 	unlock := lockFile(Work("bin", "."+name+".lock"))
 	defer unlock()
